@@ -24,7 +24,12 @@ JUNK = [1, {}, [], {'jsonrpc': '2.0', 'id': True, 'result': 1}, {'jsonrpc': '2.0
         {'jsonrpc': '2.0', 'id': 1, 'error': {'code': -32601}}, {'jsonrpc': '2.0', 'id': 1, 'error': {'code': -32000, 'data': 1}},
         {'jsonrpc': '2.0', 'id': 1, 'error': {'code': 7201}}, {'jsonrpc': '2.0', 'id': 1, 'error': {'code': 5, 'message': None}},
         {'jsonrpc': '2.0', 'id': 1, 'error': {'message': 'm'}}, {'jsonrpc': '2.0', 'id': 1, 'error': {'code': -32603, 'message': 7}},
-        {'jsonrpc': '2.0', 'id': 1, 'error': {'code': -32000.0, 'message': 'm'}}, {'jsonrpc': '2.0', 'id': 1, 'error': {'code': True, 'message': 'm'}}]
+        {'jsonrpc': '2.0', 'id': 1, 'error': {'code': -32000.0, 'message': 'm'}}, {'jsonrpc': '2.0', 'id': 1, 'error': {'code': True, 'message': 'm'}},
+        # a result together with a falsy / null error member, and the other way round: both members present is never a response
+        {'jsonrpc': '2.0', 'id': 1, 'result': 1, 'error': {}}, {'jsonrpc': '2.0', 'id': 1, 'result': 1, 'error': None},
+        {'jsonrpc': '2.0', 'id': 1, 'result': 1, 'error': 0}, {'jsonrpc': '2.0', 'id': 1, 'result': 1, 'error': []},
+        {'jsonrpc': '2.0', 'id': 1, 'result': 1, 'error': False}, {'jsonrpc': '2.0', 'id': 1, 'result': 1, 'error': ''},
+        {'jsonrpc': '2.0', 'id': 1, 'result': None, 'error': {'code': 1, 'message': 'm'}}]
 BODIES = ['1', '"x"', 'null', '{}', 'true', '{"jsonrpc":"2.0","id":1,"result":1}', '{"jsonrpc":"2.0","id":1}',
           '{"jsonrpc":"2.0","id":null,"result":1}', '{"jsonrpc":"2.0","id":null,"error":{"code":-32600}}',
           '{"jsonrpc":"2.0","id":null,"error":{"code":-32000,"message":null}}', '{"jsonrpc":"2.0","id":null,"error":{"code":-32700.0,"message":"m"}}']
@@ -83,6 +88,8 @@ def gen_cases(ctx):
                         yield dict(part='batch', kind=kind, strict=strict, n=n, notif=False, via='call', entries=entries)
                     if L <= n:
                         yield dict(part='batch', kind=kind, strict=True, n=n, notif=False, via='call', entries=entries, custom=True)
+                    if n >= 2 and L == n and len({r for r, _ in entries}) == n:
+                        yield dict(part='batch', kind=kind, strict=True, n=n, notif=False, via='call', entries=entries, build='add+getitem')
                     # ids starting at 0 (sequential(start=0)): the first call has a falsy id
                     yield dict(part='batch', kind=kind, strict=True, n=n, notif=False, via='call', entries=entries, base=0)
                     if kind == 'sync':
@@ -174,7 +181,13 @@ def run_batch(c, rec):
     client = make_client(c['kind'], lambda text, is_notif, kw: body, strict=strict, custom=bool(c.get('custom')), **idkw)
     batch = client.batch
     requests = None
-    if c['via'] == 'call':
+    if c['via'] == 'call' and c.get('build') == 'add+getitem':
+        # the first calls are add()ed, the others follow through item access on the SAME wrapper (which extends a non-empty batch)
+        k = (n + 1) // 2
+        for i in range(k):
+            batch.add('m%d' % i, i)
+        out = drive(c["kind"], lambda: batch[[('m%d' % i, i) for i in range(k, n)]])
+    elif c['via'] == 'call':
         for i in range(n):
             batch.add('m%d' % i, i)
             if c['notif'] and i == 0:
